@@ -12,6 +12,9 @@ COMMON_ENV = [
 
 PROPS = {}
 
+_DISC_ARGS_EARLY = ["-realhex", "-preempt", "0", "-redirect",
+                    "(*sync.Map).Load=verifSMLoad,(*sync.Map).Store=verifSMStore,(*sync.Map).LoadOrStore=verifSMLoadOrStore,(*sync.Map).Range=verifSMRange,crypto/hmac.New=verifHmacNew,time.NewTicker=verifNewTicker,(*time.Ticker).Stop=verifTickerStop"]
+
 PROPS["C13"] = dict(
     level="model_checking",
     explanation="S1 single-call harnesses: encode then decode with every field symbolic; the solver is asked for any value that does not round-trip",
@@ -28,6 +31,8 @@ PROPS["C13"] = dict(
              bounds={"payload": "0..5 arbitrary bytes after the 255 prefix"}),
         dict(dir="threshold", files=["thr_c13.go.txt"], entry="verifH_C13_topic", count=["assert:C13-", "panic:"], expect_covers=["topic"],
              bounds={"lists": "two lists of equal length 0..3, all 16-bit values"}),
+        dict(dir="disc", files=["disc_c13.go.txt", "disc_model.go.txt"], entry="verifH_C13_prf", args=_DISC_ARGS_EARLY, count=["assert:C13-", "panic:"], expect_covers=["prf"],
+             bounds={"identifiers": "every pair of distinct 16-bit values", "topic": "one symbolic byte + one fixed"}),
         dict(dir="disc", files=["disc_c13.go.txt"], entry="verifH_C13_disc", count=["assert:C13-", "panic:"], expect_covers=["disc-roundtrip"],
              bounds={"type": "1..3", "tag": "all 32-byte strings", "view": "0..4 entries, all 16-bit values"},
              tiers={"thorough": {"params": {"hMaxPeers": 6}, "bounds": {"view": "0..6 entries"}}}),
@@ -505,3 +510,11 @@ PROPS["C20"]["runs"].append(
          args=["-realhex", "-redirect", "context.WithCancel=verifWithCancel", "-race", "-acqonly", "-preempt", "1"], shards=16, shard_depth=5, replay_repeat=2, replay_args=["-instr", "threshold.go"],
          count=["race:", "panic:", "deadlock:", "assert:C01-", "assert:C20-"], expect_covers=["end"],
          bounds={"goroutines": "KeyGen (+ its synchroniser/callback goroutines), one dispatcher", "preemptions": "<= 1", "backend": "stub shaped like TBLS/TPS: Init installs state without a lock, OnMsg uses it"}))
+
+_NET_RD_BIND = ("(*crypto/tls.Conn).ConnectionState=verifConnectionState,(*crypto/tls.ConnectionState).ExportKeyingMaterial=verifExportKeyingMaterial,"
+                "encoding/pem.Decode=verifPemDecode,crypto/x509.ParseCertificate=verifParseCert,crypto/ecdsa.VerifyASN1=verifVerifyASN1,(*crypto/tls.Conn).Write=verifConnWrite,"
+                "(*crypto/tls.Conn).Close=verifConnClose,crypto/tls.Dial=verifDial,time.Unix=verifTimeUnix")
+PROPS["C16"]["runs"].append(
+    dict(name="source of the channel binding (real extractTLSBinding over a stubbed TLS state)", dir="net", files=["net_c16.go.txt", "net_model.go.txt"], entry="verifH_C16_binding",
+         args=["-realhex", "-redirect", _NET_RD_BIND, "-preempt", "0"], replay_args=_NET_REPLAY, count=["assert:C16-", "panic:"], expect_covers=["binding"],
+         bounds={"exporter value": "32 symbolic bytes", "tls-unique": "absent or 2 symbolic bytes"}))
